@@ -289,6 +289,15 @@ func (d *Driver) Step() bool {
 		}
 		if isLeader || pct(d.r, 25) {
 			add("Propose", p.Propose, Step{Act: "Propose", Node: n.ID, Pid: d.nextPid, Psz: psz})
+			if pct(d.r, 15) {
+				cc := ""
+				if p.ProposeCC > 0 && pct(d.r, 40) {
+					ccs := d.ccCandidates()
+					cc = ccs[d.r.Intn(len(ccs))]
+				}
+				cnt := 2 + d.r.Intn(2)
+				add("Propose", p.Propose, Step{Act: "ProposeBatch", Node: n.ID, Pid: d.nextPid, Psz: psz, To: uint64(cnt), CC: cc, K: uint64(d.r.Intn(cnt))})
+			}
 			if p.ProposeCC > 0 {
 				ccs := d.ccCandidates()
 				add("ProposeCC", p.ProposeCC, Step{Act: "ProposeConfChange", Node: n.ID, Pid: d.nextPid, CC: ccs[d.r.Intn(len(ccs))]})
@@ -396,6 +405,9 @@ func (d *Driver) Step() bool {
 				if c.Do(s) {
 					if s.Act == "Propose" || s.Act == "ProposeConfChange" {
 						d.nextPid++
+					}
+					if s.Act == "ProposeBatch" {
+						d.nextPid += int(s.To)
 					}
 					if s.Act == "ReadIndex" {
 						d.nextRid++
